@@ -702,7 +702,7 @@ CASES += [
  dict(id='sudoku-manual-join-wrong-guard', kind='fire', file=U, patch='bn23-07.diff', old='if j > 1 {', new='if j > 2 {', expect={'C17': 'violation'}, control=False),
  dict(id='sudoku-manual-join-short', kind='fire', file=U, patch='bn23-07.diff', old='for j in 1..=square {', new='for j in 1..square {', expect={'C17': 'U'}, control=False),
  dict(id='table-split-leaf-arms-wrong-filter', kind='fire', file=M, patch='bn24-08.diff', old='leaf @ BDD::True if !filter.is_false()', new='leaf @ BDD::True if !filter.is_true()', expect={'C10': 'X2'}, control=False),
- dict(id='table-widths-len-plus-one', kind='fire', file=M, patch='bn24-05.diff', old='indent = widths[labels.len()]', new='indent = widths[labels.len() + 1]', expect={'C12': 'violation'}, control=False),
+ dict(id='table-widths-len-plus-one', kind='fire', file=M, patch='bn24-05.diff', old='            widths[labels.len()]\n', new='            widths[labels.len() + 1]\n', expect={'C12': 'violation'}, control=False),
  dict(id='set-contains-into-inner-or', kind='fire', file=S, patch='bn24-01.diff', old='self.env.and(current, Rc::clone(&element)) == element', new='self.env.or(current, Rc::clone(&element)) == element', expect={'C19': 'contains'}, control=False),
  dict(id='parser-generic-list-wrong-closing', kind='fire', file=P, patch='bn22-07.diff', old='Self::parse_comma_separated(tokens, SymbolicBDDToken::Hash, Self::parse_variable_name)', new='Self::parse_comma_separated(tokens, SymbolicBDDToken::Comma, Self::parse_variable_name)', expect={'C08': 'violation'}, control=False),
  dict(id='parser-generic-list-wrong-item', kind='fire', file=P, patch='bn22-07.diff', old='            SymbolicBDDToken::CloseSquare,\n            Self::parse_sub_formula,', new='            SymbolicBDDToken::CloseSquare,\n            Self::parse_simple_sub_formula,', expect={'C08': 'violation'}, control=False),
@@ -771,4 +771,19 @@ CASES += [
  dict(id='queens-small-board-shortcut', kind='fire', file=Q, patch='../../seeded/C15-r7a/patch.diff', expect={'C15': 'early return'}, control=False),
  dict(id='queens-header-debug-args', kind='fire', file=Q, patch='../../seeded/C15-r7c/patch.diff', expect={'C15': 'remark'}, control=False),
  dict(id='sudoku-header-echoes-raw-text', kind='fire', file=U, old='        puzzle_input.replace(\'"\', "\'")\n', new='        puzzle_input\n', expect={'C17': 'remark'}, control=False),
+]
+
+CASES += [
+ # rules added after the round-8 seeds
+ dict(id='formula-list-deduplicated', kind='fire', file=P, patch='../../seeded/C07-r8a/patch.diff', expect={'C07': 'A3'}, control=False),
+ dict(id='row-printer-joins-cells', kind='fire', file=M, patch='../../seeded/C10-r8a/patch.diff', expect={'C10': 'X12'}, control=False),
+ dict(id='formulas-share-a-default-environment', kind='fire', file=P, patch='../../seeded/C11-r8c/patch.diff', expect={'C11': 'fresh environment', 'C13': 'fresh environment'}, control=False),
+ dict(id='duplicates-counts-representatives', kind='fire', file=B, patch='../../seeded/C13-r8b/patch.diff', expect={'C13': 'E9'}, control=False),
+ dict(id='parsetree-edges-deduplicated', kind='fire', file=PIO, patch='../../seeded/C14-r8a/patch.diff', expect={'C14': 'edges de-duplicated'}, control=False),
+ dict(id='render-dot-buffered-unflushed', kind='fire', file=IO, patch='../../seeded/C14-r8b/patch.diff', expect={'C14': 'buffered writer'}, control=False),
+ dict(id='retain-rebuilds-outside-table', kind='fire', file=B, patch='../../seeded/C14-r8c/patch.diff', expect={'C14': 'E1'}, control=False),
+ dict(id='sudoku-empty-text-shortcut', kind='fire', file=U, patch='../../seeded/C17-r8c/patch.diff', expect={'C17': 'early return'}, control=False),
+ dict(id='colour-count-capped', kind='fire', file=G, patch='../../seeded/C18-r8a/patch.diff', expect={'C18': 'colour range'}, control=False),
+ dict(id='table-width-by-format-argument', kind='fire', file=M, old='        print!(" {} |", pad_right(label, widths[i]));', new='        print!(" {:w$} |", label, w = widths[i]);', expect={'C12': 'format width'}, control=False),
+ dict(id='table-width-capped-format-argument', kind='silent', file=M, old='        print!(" {} |", pad_right(label, widths[i]));', new='        print!(" {:w$} |", label, w = widths[i].min(200));', checks=['C12'], control=False),
 ]
